@@ -13,12 +13,12 @@ REQ = {
             "probes": ["insert_on_existing_knot", "insert_on_knot_mult_ge_2", "evalpts_checked_after_modification", "reject_after_cache_warm",
                        "unnormalised_object", "object:volume", "object:surface:rational", "object:curve",
                        "caller_held_count_list:1", "caller_held_count_list:degree", "one_knot_vector_list_for_all_directions",
-                       "knot_vector_lists_shared_by_two_objects", "object_built_from_the_getters_of_another"]},
+                       "knot_vector_lists_shared_by_two_objects", "object_built_from_the_getters_of_another", "checks_disabled_by_caller"]},
     "C06": {"faults": ["memo_evict", "rejected_remove"],
             "probes": ["removal_after_unrelated_operation", "removal_count_ge_2", "partial_removal", "full_restoration_checked",
                        "refine_as_source_of_removable_knots", "unnormalised_object", "object:volume:rational",
                        "caller_held_count_list:remove", "object_built_from_the_getters_of_another", "knot_named_with_float_noise",
-                       "partial_domain_evaluation_before_modification", "evalpts_checked_against_reference_model"]},
+                       "partial_domain_evaluation_before_modification", "evalpts_checked_against_reference_model", "checks_disabled_by_caller"]},
     "C09": {"faults": ["rejected_setter"],
             "probes": ["setter_of_other_view_after_read", "getter_list_fed_back_into_setter", "conversion_checked", "grid_read_checked",
                        "nurbs_to_bspline_on_weights_le_1", "getter_list_edited_in_place_and_written_back", "setter_given_tuples",
@@ -28,13 +28,13 @@ REQ = {
     "C12": {"faults": ["memo_evict", "rejected_edit:bad_delta", "rejected_edit:bad_knots", "rejected_edit:bad_point", "rejected_edit:bad_insert"],
             "probes": ["read_after_edit_of_warm_object", "rejected_edit_while_cache_warm", "copy_created", "element_edit_while_container_cache_warm", "container_deepcopy_checked", "container_tessellate_on_simulated_pool",
                        "container_read_after_edit_of_warm_container", "caller_reused_its_argument_list_after_the_setter",
-                       "partial_domain_evaluation", "evalpts_checked_against_reference_model"]},
+                       "partial_domain_evaluation", "evalpts_checked_against_reference_model", "decompose_single_piece"]},
     "C14": {"faults": ["open_fails", "write_fails", "close_fails", "read_fails", "crash"],
             "probes": ["restart", "restart_after_crash", "restart_with_ge_2_acknowledged_files", "overwrite_after_failed_export",
                        "import_after_restart_or_overwrite_after_failure", "directory_import_checked", "listdir_shuffled", "independent_reader_checks",
                        "caller_reused_its_argument_list_after_the_setter"]},
     "C15": {"faults": ["worker_raises", "open_fails", "write_fails", "close_fails", "failing_tessellate_call"],
-            "probes": ["mesh_observed_after_intervening_change", "vertex_spacing_gt_1", "container_mesh_checked", "quad_checked",
+            "probes": ["surface_copied:deepcopy", "surface_copied:translate", "mesh_observed_after_intervening_change", "vertex_spacing_gt_1", "container_mesh_checked", "quad_checked",
                        "mesh_file_checked:obj", "mesh_file_checked:off", "mesh_file_checked:stl_ascii", "mesh_file_checked:stl_bin",
                        "trim_cell_inside_checked", "trim_cell_outside_checked", "container_tessellate_hit_by_worker_fault", "mesh_export_hit_by_fault",
                        "container_given_used_tessellator", "partial_domain_evaluation_before_mesh", "tessellator_used_directly:spacing_gt_1",
@@ -42,7 +42,7 @@ REQ = {
                        "container_partially_traversed_before_export"]},
     "C16": {"faults": ["memo_evict", "rejected_input:nonsquare", "rejected_input:singular", "rejected_input:singular_zero_column", "rejected_input:needs_pivot", "rejected_input:rhs_mismatch", "rejected_input:mutate_result"],
             "probes": ["identity_consumer_after_swap_same_size", "row_swap_performed", "row_swap_needed", "determinant_of_small_magnitude_matrix",
-                       "caller_passes_the_same_matrix_object_again", "returned_pivot_matrix_edited_and_passed_on"]},
+                       "caller_passes_the_same_matrix_object_again", "returned_pivot_matrix_edited_and_passed_on", "linspace_with_decimals"]},
     "C17": {"faults": ["worker_raises", "slow_worker", "late_result"],
             "probes": ["config_dim:num_procs", "config_dim:span", "config_dim:evaluator", "config_dim:normalize", "config_dim:cache_size",
                        "pooled_call_with_ge_2_chunks", "chunks_completed_out_of_order", "baseline_reimported_with_cache_unset"],
